@@ -233,23 +233,23 @@ CHECKS = {
 # clauses added in the fourth round of strengthening (appended to the level text of the property)
 EXTRA = {
     'C01': ' Also: operators in force end with the subset (register lifecycle fold, shared with C06.R1); the data section is read in the mode the header declares whatever '
-           'the subset count; read_uint_or_none is folded for every width an 8-bit operand can give (0..255).',
-    'C02': ' Also: the encoder keeps nothing from one message to the next; the data section is written in the layout the header declares whatever the subset count.',
+           'the subset count; read_uint_or_none is folded for every width an 8-bit operand can give (0..255). End-to-end fold: the decoder walk, folded concretely on 24 templates with a scripted bit reader, asks for the same fields (kind, width), labels them alike, computes the same values and links as an independent FM-94 reading of each template.',
+    'C02': ' Also: the encoder keeps nothing from one message to the next; the data section is written in the layout the header declares whatever the subset count. End-to-end fold: decode then encode on 24 concrete templates gives back exactly the fields that were read.',
     'C03': ' Also: marker values are written with the coding the bitmap of the subset being written designates; an encoder that compiles templates keys them by '
-           'descriptor list and table group.',
+           'descriptor list and table group. End-to-end fold: decode then encode on 24 concrete templates gives back the fields that were read; off-grid values are written canonically (encode / decode / encode fixpoint).',
     'C04': ' Also: a section whose last parameter takes the rest of the section, declared shorter than its fixed part, is refused with the library error (the reader '
            'model refuses negative widths as bitstring does).',
-    'C05': ' Also: all-equal columns of NUL strings.',
+    'C05': ' Also: all-equal columns of NUL strings. End-to-end fold: on 24 concrete templates the compressed encoder and decoder walks give back every subset (one, two equal, two different) with the labels and links of the uncompressed decoding; width 0 exactly on raw agreement, also for off-grid values.',
     'C06': ' Also: process_template_data folded on three uncompressed subsets with the real state (what reaches TemplateData are the state\'s own per-subset records, '
            'distinct objects each with its own entries, for templates with and without delayed replication or markers); every renderer shows subset k from the records of '
            'subset k.',
     'C07': ' Also: chains of bitmap operators folded call by call (237000 recalls the bitmap defined for reuse also after a later bitmap that is not for reuse; nothing to '
            'recall after 237255); the hierarchical views show every attribute under its owner (element or replication factor); two coder states of one process share no '
-           'mutable register object.',
+           'mutable register object. End-to-end fold: on 24 concrete templates the decoder\'s links and the attributes of the tree wire() builds are the same relation.',
     'C08': ' Also: the same Table D sequence met before, under and after each operator regime, inside and outside replications and around bitmaps; markers after 203000 and '
            'while 203 values are in force; thorough tier: the differential with every distinct sequence of every bundled Table D as the template (1330 structures).',
     'C09': ' Also: the hierarchical views show every attribute under its owner; every renderer shows subset k from the records of subset k (three differently shaped '
-           'subsets); renderers keep no state.',
+           'subsets); renderers keep no state. End-to-end fold: decode -> wire -> render -> read back on 24 concrete templates: every flat index has exactly one place in the tree and each rendering converts back to the flat values.',
     'C10': ' Also: the subset command builds decoder and encoder with the same tables and section layouts.',
     'C11': ' Also: a message of data category 11 in a layout other than a table definition is yielded like any other; the decoder keeps nothing from one message to the next.',
     'C12': ' Also: the stream commands (decode -m, info -m, split) folded with a lazy scripted scanner deliver every message before asking for the next one; '
@@ -259,9 +259,9 @@ EXTRA = {
     'C14': ' Also: forward references between Table D sequences at every nesting position; the descriptor list of section 3 reaches the template entry by entry; the NCEP '
            'repair leaves well-formed sequences as they are; an undefined descriptor is refused at every template position.',
     'C16': ' Also: a replication whose repetitions carry different descriptors (marker values) is matched repetition by repetition; parser and querent keep nothing between '
-           'queries.',
+           'queries. End-to-end fold: child and attribute paths over the trees wired from the decoder walk equal the evaluation over their nested JSON rendering.',
     'C17': ' Also: no code reachable from the decoder assigns to the value of a named section parameter after it was read.',
-    'C19': ' Also: the generic dispatchers read(type, n) / write(value, type, n) are the typed methods, for every typed method the reader and writer have.',
+    'C19': ' Also: the generic dispatchers read(type, n) / write(value, type, n) are the typed methods, for every typed method the reader and writer have. A signed field of one bit is read and written without asking bitstring for a zero-length integer.',
     'C20': ' Also: definitions of a message that a filter keeps from being yielded are registered all the same; no process-wide store other than the table-group cache can '
            'keep objects built from the old definitions; templates compiled before a definition message are not used after it; the NCEP repair keeps complete '
            'replications inside their sequence.',
